@@ -575,7 +575,280 @@ def stage_lex(work, tier, seed):
                              grammar=gtext[v["id"]]) for v in verdicts if v["nmatch"] > 1][:3]}
 
 
-STAGES = {"lex": stage_lex, "resolve": stage_resolve, "prec": stage_prec, "tables": stage_tables, "lr": stage_lr, "mci_lr": stage_mci_lr, "glr": stage_glr}
+
+FINE_DOC = dict(syntax=True, idents=True, terminals=True, symbols=True, selfrec=True, recognizers=True,
+                productive=True, conflicts=True)
+BASE_DOC = "S: A Tb | Tc;\nA: Ta A | Ta;\nterminals\nTa: 'a';\nTb: 'b';\nTc: /c+/;\n"
+
+
+def pipeline_docs(tier, seed):
+    """(id, text, doc attributes or None) -- documents with one injected defect
+    (attributes known by construction), every construct the grammar language accepts,
+    and seeded byte/token mutations of repository grammars (attributes unknown)."""
+    docs = []
+
+    def known(name, text, **defect):
+        d = dict(FINE_DOC)
+        d.update(defect)
+        docs.append(("inj:" + name, text, d))
+
+    known("fine", BASE_DOC)
+    known("syntax1", BASE_DOC.replace("A Tb | Tc;", "A Tb | Tc"), syntax=False)
+    known("syntax2", BASE_DOC.replace("A: Ta A", "A: : Ta A"), syntax=False)
+    known("syntax3", BASE_DOC.replace("terminals", "terminalz"), syntax=False)
+    known("syntax4", "S: 'a\n;\nterminals\nTa: 'a';\n", syntax=False)
+    known("ident1", BASE_DOC.replace("A", "fn"), idents=False)
+    known("ident2", BASE_DOC.replace("Tb", "struct"), idents=False)
+    known("terminal1", BASE_DOC.replace("A Tb", "A 'x'"), terminals=False)
+    known("terminal2", BASE_DOC.replace("A Tb", "A 'x'+"), terminals=False)
+    known("symbol1", BASE_DOC.replace("A Tb", "A Zz"), symbols=False)
+    known("symbol2", BASE_DOC.replace("Ta A | Ta", "Ta Q | Ta"), symbols=False)
+    known("selfrec", "S: A Ta;\nA: A;\nterminals\nTa: 'a';\n", selfrec=False)
+    known("recognizer", "S: Ta Tb;\nterminals\nTa: 'a';\nTb: ;\n", recognizers=False)
+    known("unproductive1", "S: A Ta;\nA: B;\nB: A;\nterminals\nTa: 'a';\n", productive=False)
+    known("unproductive2", "S: S Ta;\nterminals\nTa: 'a';\n", productive=False)
+    known("conflict_sr", "E: E Tp E | Tn;\nterminals\nTp: '+';\nTn: 'n';\n", conflicts=False)
+    known("conflict_rr", "S: A Ta | B Ta;\nA: Tb;\nB: Tb;\nterminals\nTa: 'a';\nTb: 'b';\n", conflicts=False)
+    known("conflict_accept", "S: S S | Ta | EMPTY;\nterminals\nTa: 'a';\n", conflicts=False)
+    known("conflict_three", "S: A Tt | B Tt | C;\nA: Ta;\nB: Ta;\nC: Ta Tt;\nterminals\nTa: 'a';\nTt: 't';\n",
+          conflicts=False)
+    # constructs the grammar language accepts (documented syntax): outcome must be ok or err
+    constructs = {
+        "greedy_star": "S: Ta*!;\nterminals\nTa: 'a';\n",
+        "greedy_plus": "S: Ta+! Tb;\nterminals\nTa: 'a';\nTb: 'b';\n",
+        "greedy_opt": "S: Ta?! Tb;\nterminals\nTa: 'a';\nTb: 'b';\n",
+        "group": "S: (Ta Tb)+ Tb;\nterminals\nTa: 'a';\nTb: 'b';\n",
+        "group_alt": "S: (Ta | Tb) Tb;\nterminals\nTa: 'a';\nTb: 'b';\n",
+        "two_modifiers": "S: Ta+[Tb, Tc];\nterminals\nTa: 'a';\nTb: 'b';\nTc: 'c';\n",
+        "terminals_only": "terminals\nTa: 'a';\n",
+        "imports_only": "import 'other.rustemo';\n",
+        "import_and_rule": "import 'other.rustemo' as o;\nS: Ta;\nterminals\nTa: 'a';\n",
+        "empty_file": "",
+        "comment_only": "// nothing\n",
+        "huge_prio": "S: Ta {99999999999};\nterminals\nTa: 'a';\n",
+        "huge_term_prio": "S: Ta;\nterminals\nTa: 'a' {99999999999};\n",
+        "prio_100": "S: Ta;\nterminals\nTa: 'a' {100};\n",
+        "rule_named_empty": "S: Ta EMPTY;\nEMPTY: Ta;\nterminals\nTa: 'a';\n",
+        "rule_named_stop": "S: STOP Ta;\nSTOP: Ta;\nterminals\nTa: 'a';\n",
+        "rule_named_aug": "S: AUG;\nAUG: Ta;\nterminals\nTa: 'a';\n",
+        "term_named_stop": "S: Ta;\nterminals\nTa: 'a';\nSTOP: 'x';\n",
+        "layout_lower": "S: Ta;\nlayout: Tb*;\nterminals\nTa: 'a';\nTb: 'b';\n",
+        "layout_only_ref": "S: Ta Layout;\nLayout: Tb;\nterminals\nTa: 'a';\nTb: 'b';\n",
+        "dup_rule": "S: Ta;\nS: Tb;\nterminals\nTa: 'a';\nTb: 'b';\n",
+        "dup_terminal": "S: Ta;\nterminals\nTa: 'a';\nTa: 'b';\n",
+        "dup_terminal_str": "S: Ta Tb;\nterminals\nTa: 'a';\nTb: 'a';\n",
+        "same_name_term_rule": "S: A;\nA: Ta;\nterminals\nTa: 'a';\nA: 'x';\n",
+        "sugar_on_str": "S: 'a'* 'b'?;\nterminals\nTa: 'a';\nTb: 'b';\n",
+        "sep_undefined": "S: Ta+[Zz];\nterminals\nTa: 'a';\n",
+        "sep_string": "S: Ta+[','];\nterminals\nTa: 'a';\nComma: ',';\n",
+        "named_assign": "S: a=Ta b?=Tb c=Ta*;\nterminals\nTa: 'a';\nTb: 'b';\n",
+        "named_assign_kw": "S: fn=Ta;\nterminals\nTa: 'a';\n",
+        "annotation": "@vec\nS: S Ta | Ta;\nterminals\nTa: 'a';\n",
+        "annotation_unknown": "@nothing\nS: Ta;\nterminals\nTa: 'a';\n",
+        "user_meta": "S {x: 5, y: 'z', z: 1.5, w: true}: Ta {q: 1};\nterminals\nTa: 'a' {r: 3};\n",
+        "dynamic": "S: Ta {dynamic};\nterminals\nTa: 'a' {dynamic};\n",
+        "kind": "S: Ta {Aa} | Tb {Aa};\nterminals\nTa: 'a';\nTb: 'b';\n",
+        "regex_bad": "S: Ta;\nterminals\nTa: /(/;\n",
+        "regex_empty_match": "S: Ta* Tb;\nterminals\nTa: /a*/;\nTb: 'b';\n",
+        "unreachable_rule": "S: Ta;\nU: Tb;\nterminals\nTa: 'a';\nTb: 'b';\n",
+        "unused_terminal": "S: Ta;\nterminals\nTa: 'a';\nTb: 'b';\n",
+        "start_is_terminal_ref": "S: Ta;\nterminals\nTa: 'a';\n",
+        "only_empty": "S: EMPTY;\n",
+        "empty_twice": "S: EMPTY | EMPTY;\n",
+        "opt_of_nullable": "S: A? Ta;\nA: Tb | EMPTY;\nterminals\nTa: 'a';\nTb: 'b';\n",
+        "star_of_nullable": "S: A* Ta;\nA: Tb | EMPTY;\nterminals\nTa: 'a';\nTb: 'b';\n",
+        "deep_sugar": "S: A+[Tc]? B*;\nA: Ta;\nB: Tb;\nterminals\nTa: 'a';\nTb: 'b';\nTc: 'c';\n",
+        "unicode_names": "S: Tä;\nterminals\nTä: 'ä';\n",
+        "crlf": "S: Ta;\r\nterminals\r\nTa: 'a';\r\n",
+        "block_comment": "/* c /* nested */ */ S: Ta; // x\nterminals\nTa: 'a';\n",
+    }
+    shapes = {
+        "sep_regex_plus": "S: Num+[Sep];\nterminals\nNum: /\\d+/;\nSep: /[,;]/;\n",
+        "sep_regex_star": "S: Num*[Sep] Te;\nterminals\nNum: /\\d+/;\nSep: /[,;]/;\nTe: 'e';\n",
+        "sep_nonterm": "S: Num+[Sp];\nSp: Ta | Tb;\nterminals\nNum: /\\d+/;\nTa: 'a';\nTb: 'b';\n",
+        "vec_three": "@vec\nL: L Sep Num | Num;\nterminals\nNum: /\\d+/;\nSep: /[,;]/;\n",
+        "vec_right": "@vec\nL: Num L | Num;\nterminals\nNum: /\\d+/;\n",
+        "vec_empty": "S: Ta L;\n@vec\nL: L Num | Num | EMPTY;\nterminals\nTa: 'a';\nNum: /\\d+/;\n",
+        "opt_struct": "S: Ta At;\nAt: Tc Num Num | EMPTY;\nterminals\nTa: 'a';\nTc: ':';\nNum: /\\d+/;\n",
+        "rec_struct": "E: l=E Tp r=E {left} | Num;\nterminals\nTp: '+';\nNum: /\\d+/;\n",
+        "rec_ref": "A: B;\nB: Tl A Tr | Num;\nterminals\nTl: '(';\nTr: ')';\nNum: /\\d+/;\n",
+        "bool_assign": "S: a?=Ta b=Num c?=Num;\nterminals\nTa: 'a';\nNum: /\\d+/;\n",
+        "same_kind": "E: Ta {A} | Tb {A} | Tc {A1} | Td {A1};\nterminals\nTa: /a/;\nTb: /b/;\nTc: /c/;\nTd: /d/;\n",
+        "rule_like_choice": "E: Num {Add} | Add;\nAdd: Ta;\nterminals\nNum: /\\d+/;\nTa: /a/;\n",
+        "all_const": "S: Ta Tb | Tb;\nterminals\nTa: 'a';\nTb: 'b';\n",
+        "nested_sugar": "S: A*;\nA: Num? Ta+;\nterminals\nNum: /\\d+/;\nTa: 'a';\n",
+    }
+    for k, t in constructs.items():
+        docs.append(("con:" + k, t, None))
+    for k, t in shapes.items():
+        docs.append(("con:shape_" + k, t, None))
+    # mutations of repository grammars
+    rng = random.Random(seed * 101 + 3)
+    repo = repo_grammars("thorough")
+    nmut = 150 if tier == "quick" else 1500
+    toks = [";", ":", "|", "{", "}", "'", "/", "EMPTY", "terminals", "*", "+", "?", "[", "]", "(", ")", "=",
+            "@", ",", "left", "1", "99999999999", "\\", "\"", "//", "/*", "é", "\x00", "!"]
+    for i in range(nmut):
+        path, text = rng.choice(repo)
+        if len(text) > 3000:
+            continue
+        b = text
+        for _ in range(rng.randint(1, 3)):
+            op = rng.choice(["del", "ins", "dup", "swap", "trunc"])
+            if not b:
+                break
+            pos = rng.randrange(len(b))
+            if op == "del":
+                b = b[:pos] + b[pos + rng.randint(1, 6):]
+            elif op == "ins":
+                b = b[:pos] + rng.choice(toks) + b[pos:]
+            elif op == "dup":
+                j = min(len(b), pos + rng.randint(1, 30))
+                b = b[:j] + b[pos:j] + b[j:]
+            elif op == "swap":
+                j = min(len(b), pos + rng.randint(2, 20))
+                b = b[:pos] + b[pos:j][::-1] + b[j:]
+            else:
+                b = b[:pos]
+        docs.append(("mut:%d:%s" % (i, os.path.basename(path)), b, None))
+    return docs
+
+
+def stage_pipeline(work, tier, seed):
+    """C16: Settings::process_grammar (catch_unwind) and the rcomp binary on
+    generated documents; outcomes judged by CheckPipeline against Pipeline.Predict."""
+    import subprocess
+    docs = pipeline_docs(tier, seed)
+    combos = [dict(algo="lr", tt="pager"), dict(algo="glr"), dict(algo="lr", tt="lalr", ps=True),
+              dict(algo="lr", tt="rn", pse=False), dict(algo="glr", ps=True, pse=True),
+              dict(algo="lr", tt="pager", lexer="custom", builder="generic"),
+              dict(algo="lr", tt="pager", builder="default"), dict(algo="glr", builder="default", loc_info=True)]
+    reqs = []
+    meta = {}
+    gdir = work.path("pipeline", "g", "x")
+    gdir = os.path.dirname(gdir)
+    for n, (did, text, attrs) in enumerate(docs):
+        use = combos if attrs is not None or did.startswith("con:") else [combos[n % 2]]
+        for ci, st in enumerate(use):
+            d = os.path.join(gdir, "d%d_%d" % (n, ci))
+            os.makedirs(d, exist_ok=True)
+            gp = os.path.join(d, "g.rustemo")
+            with open(gp, "w", encoding="utf-8", errors="surrogatepass") as f:
+                f.write(text)
+            rid = "%s|%s" % (did, "/".join("%s=%s" % kv for kv in sorted(st.items())))
+            reqs.append({"id": rid, "grammar_path": gp, "settings": dict(st, builder=st.get("builder", "generic")),
+                         "out_dir": os.path.join(d, "out"), "out_dir_actions": os.path.join(d, "out")})
+            a = attrs
+            # shift preference resolves shift/reduce conflicts: attribute unknown there
+            if attrs is not None and not attrs["conflicts"] and st.get("ps") and did != "inj:conflict_rr":
+                a = None
+            meta[rid] = dict(text=text, attrs=a, algo=st["algo"], lexer=st.get("lexer", "default"), dir=d,
+                             st=st)
+    # API runs, sharded
+    shards = [reqs[i::run.NCPU] for i in range(run.NCPU)]
+
+    def one(k):
+        if not shards[k]:
+            return []
+        cp = work.path("pipeline", "req%d.ndjson" % k)
+        op = work.path("pipeline", "res%d.ndjson" % k)
+        with open(cp, "w") as f:
+            for r in shards[k]:
+                f.write(json.dumps(r) + "\n")
+        out = []
+        todo = list(shards[k])
+        while todo:
+            with open(cp, "w") as f:
+                for r in todo:
+                    f.write(json.dumps(r) + "\n")
+            r = subprocess.run("ulimit -v 8000000; exec %s batch %s %s" % (run.vhist_bin(), cp, op), shell=True,
+                               executable="/bin/bash", capture_output=True, text=True, env=run.clean_env(),
+                               timeout=1200)
+            got = run.read_ndjson(op) if os.path.exists(op) else []
+            out += got
+            if r.returncode == 0:
+                break
+            # the process died (stack overflow / abort): the case in progress is a crash
+            ci = int(open(op + ".progress").read())
+            out.append({"id": todo[ci]["id"], "outcome": "crash", "class": "crash",
+                        "msg": "process exit %d: %s" % (r.returncode, r.stderr[-200:])})
+            out = [x for x in out]
+            todo = todo[ci + 1:]
+        return out
+    from concurrent.futures import ThreadPoolExecutor
+    with ThreadPoolExecutor(max_workers=run.NCPU) as ex:
+        results = [x for part in ex.map(one, range(run.NCPU)) for x in part]
+    recs = []
+    for r in results:
+        m = meta[r["id"]]
+        recs.append({"id": r["id"], "via": "api", "known": m["attrs"] is not None,
+                     "doc": m["attrs"] or FINE_DOC, "algo": m["algo"], "lexer": m["lexer"],
+                     "outcome": r["outcome"], "class": r["class"], "msg": r["msg"][:200]})
+    # rcomp runs on the injected / construct documents (exit status 101 = panic)
+    rc = run.rcomp_bin()
+
+    def cli(rid):
+        m = meta[rid]
+        st = m["st"]
+        d = m["dir"] + "_cli"
+        os.makedirs(d, exist_ok=True)
+        gp = os.path.join(d, "g.rustemo")
+        with open(gp, "w", encoding="utf-8", errors="surrogatepass") as f:
+            f.write(m["text"])
+        args = [rc, gp, "-p", st["algo"], "-b", st.get("builder", "generic")]
+        if st.get("loc_info"):
+            args.append("--builder-loc-info")
+        if "tt" in st:
+            args += ["-t", {"lalr": "lalr", "pager": "lalr-pager", "rn": "lalr-rn"}[st["tt"]]]
+        if st.get("ps"):
+            args.append("--prefer-shifts")
+        if st.get("pse") is False:
+            args.append("--no-shifts-over-empty")
+        if st.get("lexer") == "custom":
+            args += ["-l", "custom"]
+        try:
+            r = subprocess.run(args, capture_output=True, text=True, env=run.clean_env(), timeout=120)
+            code, outp = r.returncode, r.stdout + r.stderr
+        except subprocess.TimeoutExpired:
+            code, outp = -9, "timeout"
+        if code == 0 and "Parser(s) not generated" in outp:
+            outcome = "err"
+        elif code == 0:
+            outcome = "ok"
+        elif code == -9:
+            outcome = "hang"
+        else:
+            outcome = "panic"
+        import re as _re
+        msg = ""
+        mm = _re.search(r"panicked at ([^\n]*)\n([^\n]*)", outp)
+        if mm:
+            msg = (mm.group(1) + " " + mm.group(2))[:200]
+        return {"id": rid, "via": "cli", "known": False, "doc": FINE_DOC, "algo": m["algo"], "lexer": m["lexer"],
+                "outcome": outcome, "class": "", "msg": msg}
+    cli_ids = [rid for rid in meta if not rid.startswith("mut:")]
+    if tier == "quick":
+        cli_ids = [rid for n, rid in enumerate(cli_ids) if n % 3 == 0]
+    with ThreadPoolExecutor(max_workers=run.NCPU) as ex:
+        recs += list(ex.map(cli, cli_ids))
+    rp = work.path("pipeline", "recs.ndjson")
+    with open(rp, "w") as f:
+        for r in recs:
+            f.write(json.dumps(r) + "\n")
+    r = run.run_tlc(work, "CheckPipeline", "CheckPipeline.cfg", {"RECS": rp})
+    mc = run.run_tlc(work, "MC_Pipeline", "MC_Pipeline.cfg", {}, workers=4)
+    verdicts = r["verdicts"]
+    import collections
+    cls = collections.Counter((v["outcome"], v["class"]) for v in verdicts)
+    return {"verdicts": [v for v in verdicts if v["bad"]], "texts": {k: meta[k]["text"] for k in meta
+                                                                      if any(v["id"] == k and v["bad"] for v in verdicts)},
+            "states": r["distinct"] + mc["distinct"], "transitions": r["states"] + mc["states"],
+            "mc_pipeline_ok": "No error has been found" in mc["out"],
+            "ncases": len(recs), "ntraces": len(verdicts), "outcomes": {"%s/%s" % k: v for k, v in cls.items()},
+            "samples": [dict(id=v["id"], via=v["via"], outcome=v["outcome"], cls=v["class"]) for v in verdicts[:200:45]]}
+
+
+STAGES = {"pipeline": stage_pipeline, "lex": stage_lex, "resolve": stage_resolve, "prec": stage_prec, "tables": stage_tables, "lr": stage_lr, "mci_lr": stage_mci_lr, "glr": stage_glr}
 
 
 # ---------------------------------------------------------------------------
@@ -585,6 +858,8 @@ class Context:
 
     def grammar(self, stage, cid):
         st = self.res[stage]
+        if "texts" in st:
+            return st["texts"].get(cid, "")
         gt = st.get("gtext", {})
         return gt.get(cid) or gt.get(cid.rsplit("|", 1)[0]) or ""
 
@@ -619,7 +894,8 @@ def coverage(prop, res, stage_names):
         cov["per_stage"][st] = {k: r[k] for k in ("ncases", "ndumps", "ntraces", "nok", "nsent", "nevents",
                                                    "ntables", "maxlen", "wall", "nambiguous", "ninscope", "nlrglr",
                                                    "ncells_exercised", "ngrammars_with_conflicts",
-                                                   "mc_lex_configurations", "mc_lex_ok", "nmulti_survivors") if k in r}
+                                                   "mc_lex_configurations", "mc_lex_ok", "nmulti_survivors",
+                                                   "outcomes", "mc_pipeline_ok") if k in r}
         cov["per_stage"][st]["divergences"] = len(r.get("divergences", []))
     cov["states"] = max(cov["states"], 1)
     cov["transitions"] = max(cov["transitions"], 1)
